@@ -90,6 +90,9 @@ def main():
                 conc = json.load(open(outp))
                 for it, c in zip(items, conc):
                     total += 1
+                    if any(k.startswith("zz.hash") for k in it["model"]):
+                        skipped += 1  # the model fixes outputs of the uninterpreted hash; the native run uses SHA-256
+                        continue
                     if c.get("nonconcrete") or c.get("engine_error") or c.get("inconclusive") or c.get("error"):
                         skipped += 1  # uses an engine-side model (hash, boxing ...) that has no concrete value
                         continue
